@@ -1,12 +1,164 @@
 (** C16 — the CMAF-ingest sender emits a complete, ordered and faithful stream.
-    Only statements; every proof is [exact <lemma>] (lemmas in theories/IngestProofs.v). *)
-From Verif Require Import GoSem Timeline Ingest IngestProofs.
+    Only statements; every proof is [exact <lemma>] (lemmas in theories/IngestProofs.v and
+    theories/IngestHandoverProofs.v; the model is theories/Ingest.v).
 
-(** The float64 arithmetic of calcSegmentAvailabilityTime asks for a 2.002 s segment 1 ms before
-    the segment server accepts the request. *)
+    Vocabulary.  [session cf now initres evs] is cmafIngester.start: the init PUTs (representation
+    indices in order), the groups of upload attempts (one group per call of sendMediaSegments, one
+    [mput] per representation: number, URL id, nowMS given to writeSegment, lmsg flag, accepted by
+    writeSegment or not) and the final state, for the event sequence [evs] over
+    {EvTimer, EvTrigger (REST step), EvCancel (REST delete)}.  [numbered cf n gs]: the groups [gs]
+    carry the numbers n, n+1, ... and each holds exactly one attempt per representation in
+    representation order.  The availability function [sc_avail cf] is a parameter of the
+    configuration; [mk_scfg] instantiates it with the code's float64 computation. *)
+From Verif Require Import GoSem Timeline Ingest IngestProofs IngestHandoverProofs.
+
+(** ** Order: init first, then consecutive numbers, one attempt per representation per group —
+    for every event sequence, every clock, every receiver behaviour, every availability function. *)
+Theorem C16_order : forall cf now initres evs inits gs st,
+  session cf now initres evs = (inits, gs, st) ->
+  inits = repIdxs cf /\
+  numbered cf (nextNr (snd (start cf now initres))) gs /\
+  (ph (snd (start cf now initres)) = PRunning ->
+   nextNr (snd (start cf now initres)) = findLastSegNr cf now + 1).
+Proof. exact session_order. Qed.
+Print Assumptions C16_order.
+
+(** Nothing is sent after Cancel, whatever follows. *)
+Theorem C16_cancel : forall cf st evs1 evs2,
+  fst (run cf st (evs1 ++ EvCancel :: evs2)) = fst (run cf st evs1) /\
+  ph (snd (run cf st (evs1 ++ EvCancel :: evs2))) <> PRunning.
+Proof. exact cancel_stops. Qed.
+Print Assumptions C16_cancel.
+
+(** Step mode: a trigger taken by the running loop makes exactly one group (one attempt per
+    representation) for the next number, at that number's availability time. *)
+Theorem C16_step_mode : forall cf st ev,
+  sc_test cf = true -> tabs_ok cf -> ph st = PRunning -> is_fire ev ->
+  exists g st', step cf st ev = ([g], st') /\ group_wf cf (nextNr st) g /\
+                Forall (fun m => mp_now m = availT st /\ mp_last m = (nextNr st =? lastToSend st)) g.
+Proof. exact step_mode_one_group. Qed.
+Print Assumptions C16_step_mode.
+
+(** Duration: with duration d the session makes exactly floor(d*1000/segDurMS)+1 groups (the
+    code's meaning of "the corresponding number"), numbered from the live edge + 1, only the last
+    one marked lmsg, and is stopped afterwards however many triggers follow.  Step mode, no
+    chunking, hypotheses [tabs_ok], [avail_total] exclude the recorded crash findings. *)
+Theorem C16_duration : forall cf now initres evs d inits gs st,
+  sc_dur cf = Some d -> 0 <= d -> 0 < sc_segDurMS cf ->
+  sc_test cf = true -> sc_chunked cf = false -> tabs_ok cf -> avail_total cf ->
+  forallb (fun i => nth i initres true) (seq 0 (length (sc_reps cf))) = true ->
+  let k := d * 1000 / sc_segDurMS cf in
+  let first := findLastSegNr cf now + 1 in
+  0 <= first ->
+  Forall is_fire evs -> k < lenZ evs ->
+  session cf now initres evs = (inits, gs, st) ->
+  inits = repIdxs cf /\ lenZ gs = k + 1 /\ numbered_last cf (first + k) first gs /\ ph st = PStopped.
+Proof. exact duration_session. Qed.
+Print Assumptions C16_duration.
+
+(** In real-time mode the catch-up loop ignores the duration: the last segment goes out without
+    lmsg, and a sender that stays behind goes on beyond the duration. *)
+Theorem C16_duration_catchup_refuted :
+  let cf := mk_scfg [ {| ir_kind := RVideo; ir_tab := Some rep2s |} ] rep2s 8000 2000 cfg0 false false (Some 2) false in
+  (let '(_, gs, st) := session cf 11200 [] [EvTimer {| fi_clock := [14300; 14301]; fi_refuse := [] |}] in
+   map (map (fun m => (mp_nr m, mp_last m))) gs = [[(5, false)]; [(6, false)]] /\ ph st = PStopped /\ lastToSend st = 6)
+  /\
+  (let '(_, gs, st) := session cf 11200 [] [EvTimer {| fi_clock := [14300; 16400; 18500; 18501]; fi_refuse := [] |}] in
+   map (map (fun m => (mp_nr m, mp_last m))) gs = [[(5, false)]; [(6, false)]; [(7, false)]; [(8, false)]] /\ lastToSend st = 6).
+Proof. exact catchup_witness. Qed.
+
+(** Completeness ($Number$ addressing): if the availability function never answers before the
+    segment is available (and at most 1 s late), every attempt of every group is accepted by
+    writeSegment, i.e. every step delivers to every representation.  [_partial]: the same
+    statement for $Time$ addressing (where the URL time comes from generateTimelineEntries at
+    nowMS+50) is only checked by the correspondence. *)
+Theorem C16_complete_partial : forall cf atoMS,
+  sc_test cf = true -> sc_timeline cf = false ->
+  aligned cf -> avail_on_time cf -> startNr (sc_cfg cf) = 0 -> 0 <= tsbdS (sc_cfg cf) ->
+  ato (sc_cfg cf) = Some atoMS ->
+  forall evs st gs st',
+    consistent cf st -> 0 <= nextNr st -> nextNr st + lenZ evs < two32 ->
+    run cf st evs = (gs, st') -> all_ok gs.
+Proof. exact complete_number. Qed.
+Print Assumptions C16_complete_partial.
+
+(** The hypothesis [avail_on_time] holds for the exact ceiling of the availability instant. *)
+Theorem C16_exact_avail_on_time : forall reps r loopMS segDur c timeline test dur chunked atoMS,
+  wf r loopMS -> startNr c = 0 -> ato c = Some atoMS -> 0 <= atoMS ->
+  avail_on_time {| sc_reps := reps; sc_ref := r; sc_loopMS := loopMS; sc_segDurMS := segDur; sc_cfg := c;
+                   sc_timeline := timeline; sc_test := test; sc_dur := dur; sc_chunked := chunked;
+                   sc_avail := availMS_exact r loopMS c |}.
+Proof. exact exact_on_time. Qed.
+Print Assumptions C16_exact_avail_on_time.
+
+(** ... and fails for the code's float64 computation: a 2.002 s segment (end 60060 at timescale
+    30000) gets 2001 ms, where the segment server still answers "too early" (1 ms). *)
 Theorem C16_truncation_refuted :
   availMS_float rep2002 2002 cfg0 0 = Ok 2001 /\
   availMS_exact rep2002 2002 cfg0 0 = Ok 2002 /\
   lookup rep2002 2002 cfg0 ByNumber 0 2001 = TTooEarly 1.
 Proof. exact avail_truncation_witness. Qed.
 Print Assumptions C16_truncation_refuted.
+
+(** The consequence for a session (segment table of the bundled 29.97 fps asset, testNowMS 10000,
+    five triggers): number 7 is asked for at 16015 ms and not delivered; 4,5,6,8 are. *)
+Theorem C16_gap_refuted :
+  let '(_, gs, st) := session (cf2997 false cfg0) 10000 [] [trig; trig; trig; trig; trig] in
+  map (map (fun m => (mp_nr m, mp_now m, mp_ok m))) gs =
+    [[(4, 10010, true)]; [(5, 12012, true)]; [(6, 14014, true)]; [(7, 16015, false)]; [(8, 18018, true)]]
+  /\ ph st = PRunning.
+Proof. exact gap_witness. Qed.
+
+(** With chunked transfer the rejected request ends the process. *)
+Theorem C16_chunked_crash_refuted :
+  let c := {| startS := 0; startNr := 0; tsbdS := 60; ato := Some 1000 |} in
+  let '(_, gs, st) := session (cf2997 true c) 15000 [] [trig; trig] in
+  map (map (fun m => (mp_nr m, mp_now m, mp_ok m))) gs = [[(7, 15015, false)]] /\
+  ph st = PCrashed "startReadAndSendChunked: send on closed channel".
+Proof. exact chunked_crash_witness. Qed.
+
+(** A start number is ignored when the first number is chosen (live edge 7, first number 5). *)
+Theorem C16_startnr_refuted :
+  let c := {| startS := 0; startNr := 3; tsbdS := 60; ato := Some 0 |} in
+  let cf := mk_scfg [ {| ir_kind := RVideo; ir_tab := Some rep2s |} ] rep2s 8000 2000 c false true None false in
+  (let '(_, gs, _) := session cf 10000 [] [trig] in map (map (fun m => (mp_nr m, mp_now m, mp_ok m))) gs = [[(5, 6000, true)]]) /\
+  lookup rep2s 8000 c ByNumber 7 10000 = TOk {| origTime := 0; newTime := 720000; origNr := 1; newNr := 7; origDur := 180000; newDur := 180000; mtimescale := 90000 |} /\
+  lookup rep2s 8000 c ByNumber 8 10000 = TTooEarly 2000.
+Proof. exact startnr_witness. Qed.
+
+(** ** Hand-over between Write and Read (chunked transfer): for every buffer capacity, every split
+    of the data into Write calls, every sequence of read-buffer sizes and every interleaving. *)
+Theorem C16_handover : forall C psize writes sched,
+  0 < C -> (forall k, 0 < psize k) ->
+  let s := hrun psize sched (hinit C writes) in
+  hfail s = None /\
+  (exists rest, r_out s ++ rest = concat writes) /\
+  (In (-1) (r_rets s) -> r_out s = concat writes /\ exists l, r_rets s = l ++ [-1] /\ Forall (fun x => 0 <= x) l) /\
+  (hterminal s = false -> exists who s', hstep psize who s = Some s') /\
+  (hterminal s = true -> r_out s = concat writes) /\
+  moves psize sched (hinit C writes) <= 20 * lenZ (concat writes) + 20 * lenZ writes + 16.
+Proof. exact handover_correct. Qed.
+Print Assumptions C16_handover.
+
+Theorem C16_handover_terminates : forall C psize writes fuel,
+  0 < C -> (forall k, 0 < psize k) ->
+  20 * lenZ (concat writes) + 20 * lenZ writes + 16 <= Z.of_nat fuel ->
+  hterminal (hrun_greedy psize fuel (hinit C writes)) = true.
+Proof. exact handover_terminates. Qed.
+Print Assumptions C16_handover_terminates.
+
+(** Non-vacuity: a session with two representations, duration 5 s on 2 s segments, four triggers;
+    a hand-over of three writes (one empty) through a 4-byte buffer read 3 bytes at a time. *)
+Example C16_example :
+  (let cf := mk_scfg [ {| ir_kind := RVideo; ir_tab := Some rep2s |}; {| ir_kind := RAudio; ir_tab := None |} ]
+                     rep2s 8000 2000 cfg0 false true (Some 5) false in
+   let '(inits, gs, st) := session cf 10000 [] [trig; trig; trig; trig] in
+   inits = [0; 1] /\
+   map (map (fun m => (mp_rep m, mp_nr m, mp_now m, mp_last m, mp_ok m))) gs =
+     [[(0, 5, 12000, false, true); (1, 5, 12000, false, true)];
+      [(0, 6, 14000, false, true); (1, 6, 14000, false, true)];
+      [(0, 7, 16000, true, true); (1, 7, 16000, true, true)]] /\ ph st = PStopped)
+  /\
+  (let s := hrun_greedy (fun _ => 3) 400 (hinit 4 [[1;2;3;4;5;6]; []; [7]]) in
+   r_out s = [1;2;3;4;5;6;7] /\ r_rets s = [3; 1; 2; 0; 1; -1] /\ hterminal s = true /\ hfail s = None).
+Proof. split; [exact duration_example|vm_compute; repeat split; reflexivity]. Qed.
